@@ -23,7 +23,9 @@ discrepancy ("cells of any type never make the function fail").
 import json
 import os
 import random
+import re
 import time
+from collections import Counter
 from concurrent.futures import ProcessPoolExecutor, ThreadPoolExecutor
 from fractions import Fraction
 
@@ -494,6 +496,10 @@ def run(tier, seed):
                     v.sample(dict(range=vec['rng'], criteria=[crit_text(c) for c in vec['crits']],
                                   must=vec['must'], may=vec['may']))
     v.traces = nfull
+    # discrepancies grouped by (check, outcome) with the numbers blanked out
+    classes = Counter(re.sub(r'-?\d+(\.\d+)?', '#', re.sub(r'\|\d+x\d+', '', x['desc']))[:110]
+                      for x in v.violations)
+    v.extra['violation_classes'] = [f'{n} x {k}' for k, n in classes.most_common(25)]
     v.extra['phase_s'] = dict(tlc=round(t_drive - v.t0, 1), drive=round(time.time() - t_drive, 1))
     v.extra.update(
         exhaustive=True, exhaustive_vectors=exhaustive_n,
